@@ -169,7 +169,7 @@ func genAcc(t *rapid.T) accCase {
 var chkAcc = harness.Define("typed-access", genAcc, runAcc)
 
 func TestRandom(t *testing.T) {
-	chkAcc.Rapid(t, harness.Pick(60000, 200000))
+	chkAcc.Rapid(t, harness.Pick(60000, 2000000))
 }
 
 // TestAddressSweep: window shapes x accessor x order x every address 0..65535.
